@@ -104,6 +104,26 @@ func fieldNilFact(s *Seg, base ssa.Value, field string) (known, isNil bool) {
 			eq := b.Op == token.EQL
 			return true, eq == (f.Truth != neg)
 		}
+		// the option was first stored into a local composite and is tested there
+		// (`r := &T{F: o.field}; if r.F == nil {...}`)
+		if u, isU := other.(*ssa.UnOp); isU && u.Op == token.MUL {
+			if fa, isFA := u.X.(*ssa.FieldAddr); isFA {
+				if _, isLocal := fa.X.(*ssa.Alloc); isLocal {
+					var last ssa.Value
+					for _, e := range s.Events {
+						if e.Kind == EvStore && e.Ord < f.Ord {
+							if fb, isFB := e.Addr.(*ssa.FieldAddr); isFB && fb.X == fa.X && fb.Field == fa.Field {
+								last = e.Val
+							}
+						}
+					}
+					if last != nil && isFieldOf(s, last, base, field) {
+						eq := b.Op == token.EQL
+						return true, eq == (f.Truth != neg)
+					}
+				}
+			}
+		}
 	}
 	return false, false
 }
